@@ -192,9 +192,8 @@ class CHECK(vlib.Check):
                 "no SETDATANODE_FLAG_QUIET / PR_NAME_REMOVE_QUIETLY / PR_NAME_SUBSCRIBE_QUIETLY without a following GETDATA (they suppress notifications by design)",
                 "the client drops its replica of a node when it unsubscribes from it, and treats updates of nodes it is not subscribed to as one-shot reads",
                 "_orderedCounter below 2^32; node depth and counts below the configured limits",
-                "normalisation: DataNode::Reset()/Init() leave _orderedCounter at its previous value, so a node recycled from the pool numbers its generated "
-                "children from where its previous life stopped (not a C13 violation: names stay unique); the harness session zeroes the counter when a node is "
-                "removed so that generated names are reproducible, and the model starts every new node at 0",
+                "a new DataNode starts with _orderedCounter = 0 (true since /repo 3a5eebc: DataNode::Init() resets it; before that a node recycled from "
+                "the pool continued numbering generated children from its previous life)",
                 "memory safety and object lifetime of the C++ (observed by ASan/UBSan in the harness only)"]
     rule = ("command histories over a real in-process ReflectServer with 1-3 sessions, generated from random.Random(seed) plus directed cases; "
             "after EVERY step the per-client per-node PR_RESULT_INDEXUPDATED streams, every node's child table order, index, _orderedCounter and "
